@@ -98,7 +98,7 @@ fn encode_literal(p: &[&str]) -> String {
                 key_id: flag(&flags, "kid").map(unhex).unwrap_or_default(),
                 iv: flag(&flags, "iv").map(unhex).unwrap_or_default(),
                 partial_iv: flag(&flags, "piv").map(unhex).unwrap_or_default(),
-                counter_signatures: vec![],
+                counter_signatures: vec![CoseSignature::default(); flag(&flags, "sigs").map(|n| n.parse().unwrap()).unwrap_or(0)],
                 rest: labels(p[2]).into_iter().map(|l| (l, Value::Null)).collect(),
             };
             enc(h)
